@@ -27,7 +27,7 @@ def theorems():
     return re.findall(r'^Theorem (\w+)', open(p).read(), re.M) if os.path.exists(p) else []
 
 
-def decorate(rng, src, allow_slashes_in_block=False):
+def decorate(rng, src, allow_slashes_in_block=True):
     """same token sequence, different comments and layout"""
     out = []
     for line in src.split('\n'):
@@ -36,13 +36,25 @@ def decorate(rng, src, allow_slashes_in_block=False):
             out.append(line)           # directives stay on their own line
             continue
         buf = []
+        prev = None
         for t in toks:
             k = rng.random()
+            # a comment glued to its neighbours (no blank on either side) where deleting it cannot
+            # merge two tokens: next to ; , ( ) { } [ ] or a string / character literal
+            safe = prev is not None and (prev[-1] in ';,(){}[]"\'' or t[0] in ';,(){}[]"\'')
+            if safe and k < 0.06:
+                g = rng.choice(['/*c*/', '/* c */\n', '//c\n', '/* c\n d */', '/**/', '//\n'])
+                buf.append(g)
+                buf.append(t)
+                prev = t
+                continue
             if k < 0.08:
                 body = ''.join(rng.choice(['x', ' ', '"', "'", '/*', '#define A 1', 'a = 1;', '*', 'char q;'] +
                                           (['http://x.org', '//'] if allow_slashes_in_block else []))
                                for _ in range(rng.randrange(0, 5)))
-                buf.append(' /*' + body.replace('*/', '') + '*/ ')
+                while '*/' in body:
+                    body = body.replace('*/', '')
+                buf.append(' /*' + body + '*/ ')
             elif k < 0.12:
                 buf.append(' /* line one\n   line two " \' */ ')
             elif k < 0.18:
@@ -56,6 +68,7 @@ def decorate(rng, src, allow_slashes_in_block=False):
             else:
                 buf.append(' ')
             buf.append(t)
+            prev = t
         out.append(''.join(buf) + (' // end' if rng.random() < 0.1 else ''))
     text = '\n'.join(out)
     if rng.random() < 0.2:
@@ -91,6 +104,10 @@ def run(ctx):
     for i in range(n_prog):
         p = gen_program(rng, dict(hw=(i % 3 == 0), inline=(i % 4 == 0), bait=(i % 2 == 0)))
         s = p.source()
+        if i % 2 == 0:
+            # literals among the decorated tokens (their content is C09's business; here: a comment
+            # next to a literal must not disturb the line)
+            s = 'const char lit0[] = "ab";\nconst char *lt[2] = {"c", "d//e"};\n' + s
         srcs['p%d' % i] = {'plain': s, 'deco': decorate(rng, s), 'deco2': decorate(rng, s)}
     for k, (a, b) in WITNESS.items():
         srcs[k] = {'plain': a, 'deco': b, 'deco2': b}
@@ -171,4 +188,4 @@ def run(ctx):
                        'blank lines, CR-LF and backslash-newline splices between any two tokens; declarations and final instruction '
                        'lists must be identical; --insert-code / -W all: identical -O0 instructions, co-executed -O1 code')
     ctx.cov['trusted_base'] = ['Coq 8.16.1 kernel', 'extraction of Model/Cpp.v, M6502/Sem.v', 'hook cpp_process', 'harness ccv']
-    ctx.assumptions = ['block comments containing // are a known finding and excluded from the random decorations (witness kept)']
+    ctx.assumptions = []
